@@ -874,7 +874,21 @@ func ruleCC4(c *Ctx) *rule {
 						ok = false
 					}
 				}
-				if ok {
+				// ... and after the worker's last send: a Done that can be followed by a send lets Wait return, and the
+				// results channel be closed, under a sending worker
+				early := ""
+				for _, sd := range t.results.send {
+					if sd.fn != w {
+						continue
+					}
+					in := sd.instr
+					if (in.Block() == d.Block() && before(d, in)) || (in.Block() != d.Block() && blockReaches(d.Block(), in.Block())) || (in.Block() == d.Block() && c.info(w).innermostLoop(d.Block()) != nil) {
+						early = c.ipos(in)
+					}
+				}
+				if early != "" {
+					r.bad(key, c.ipos(d), "Done is signalled before the worker's last send ("+early+"): Wait can return and the results channel be closed while this worker still sends (panic: send on closed channel)")
+				} else if ok {
 					r.ok(key, c.ipos(d), "called once on every path to every return")
 				} else {
 					r.bad(key, c.ipos(d), "Done is not executed exactly once on every exit of the worker")
